@@ -10,6 +10,7 @@ RULE = ('Hypothesis draws (T, v) from U with boundary bias on tag numbers, lengt
         'ber.encode(v, drawn mode) and cer.encode(v) back to v; (c) the CER output satisfies the listed form rules (indefinite '
         'length iff constructed, strings > 1000 octets as 1000-octet primitive segments, sorted SET OF, FF for TRUE). '
         'Non-trivial = T constructed or tagged or a string >= 128 octets; distinct = distinct (T, v, mode).')
+RULE += (' ' + "Also: the DER bytes are the same when BER (drawn mode and default options) and CER encoded the value first, and when der.encode is handed BER's mode options.")
 ASSUMPTIONS = ['pv/core/x690.py implements X.690 correctly (self-tested on literal vectors at start-up and by DER->reader and '
                'BER-variant->reader round trips)',
                'BIT STRING types with named bits are not generated (DER 11.2.2 is not modelled by the library)']
